@@ -1110,6 +1110,43 @@ impl Table for Viot {
             ("single-device-range".into(), vec![pi, pr(0x42, 0x42, 0), mi, ep(5, 0x2000_0000, 7)]),
             ("endpoint-equal-to-iommu-base".into(), vec![Op { k: V_MMIO_IOMMU, shape: 0, fill: Fill::b(0).with(0, 0x1000_0000) }, ep(0, 0x1000_0000, 0), ep(0x1000_0000, 0, 0)]),
         ]
+        .into_iter()
+        .chain({
+            // a range placed relative to the very IOMMU it points at (and to another one): below it, ending at it, starting
+            // at it, around it, above it; in the IOMMU's segment, the next one, and spanning both - followed by nodes whose
+            // offsets depend on exactly one range node having been emitted
+            let mut v: Vec<(String, Vec<Op>)> = vec![];
+            for (seg, bus, dev, func) in [(0u64, 0u64, 1u64, 0u64), (0, 0x10, 0, 0), (5, 0x20, 3, 2), (0xffff, 0xff, 31, 7)] {
+                let iommu = Op { k: V_PCI_IOMMU, shape: 0, fill: Fill::b(0).with(0, seg).with(1, bus).with(2, dev).with(3, func) };
+                let near = |x: u64, m: u64| -> Vec<u64> {
+                    let mut n = vec![0, x.saturating_sub(1), x, (x + 1).min(m), m];
+                    n.sort();
+                    n.dedup();
+                    n
+                };
+                for fb in near(bus, 0xff) {
+                    for lb in near(bus, 0xff) {
+                        for (s0, s1) in [(seg, seg), (seg, (seg + 1) & 0xffff), ((seg + 1) & 0xffff, (seg + 1) & 0xffff), (0, 0xffff)] {
+                            for whole in [false, true] {
+                                for target in [0u16, 7] {
+                                    let mut f = Fill::b(0).with(0, s0).with(1, fb).with(4, s1).with(5, lb);
+                                    if whole {
+                                        f = f.with(6, 31).with(7, 7);
+                                    }
+                                    let r = Op { k: V_PCI_RANGE, shape: target, fill: f };
+                                    v.push((
+                                        format!("range-around-its-iommu[iommu {:04x}:{:02x}:{:02x}.{} range {:04x}:{:02x}..{:04x}:{:02x}{} target {}]", seg, bus, dev, func, s0, fb, s1, lb, if whole { " to 1f.7" } else { "" }, target),
+                                        vec![iommu, mi, r, mi, ep(9, 0x3000_0000, 7), pr(1, 2, 7), pi, pr(3, 4, 7)],
+                                    ));
+                                }
+                            }
+                        }
+                    }
+                }
+            }
+            v
+        })
+        .collect()
     }
     fn run(&self, c: &Ctor, ops: &[Op], obs: &mut dyn FnMut(usize, &dyn Aml, &[u32])) {
         let mut t = viot::VIOT::new(c.oem_id(), c.oem_table_id(), c.oem_rev());
